@@ -138,4 +138,80 @@ theorem const_inverse (P : Prim α) (L : Mat α n k) (s : α) (Q : Mat α (n + k
   rw [hx, Matrix.mul_smul, ← Matrix.mul_assoc, hw, Matrix.smul_mul, Matrix.one_mul, smul_smul, one_div,
     inv_mul_cancel₀ hs0, one_smul]
 
+/-! ### Non-constant diagonal -/
+
+theorem closureNonconst_eq (q : Mat α n k) (d : Fin n → α) (x : Mat α n c) :
+    closureNonconst q d x =
+      (Matrix.diagonal (fun i => 1 / d i) * Matrix.of x - Matrix.of q * ((Matrix.of q)ᵀ * Matrix.of x) :
+        Matrix (Fin n) (Fin c) α) := by
+  unfold closureNonconst qqt
+  rw [Mat.mul_eq_matrix_mul q (Mat.mul (Mat.transpose q) x), Mat.mul_eq_matrix_mul (Mat.transpose q) x]
+  funext i j
+  simp only [Matrix.sub_apply, Matrix.diagonal_mul, Matrix.of_apply]
+  rw [div_eq_inv_mul, one_div]
+  rfl
+
+theorem conj_inverse {E Ei M W : Matrix (Fin n) (Fin n) α} (h1 : E * Ei = 1) (h3 : M * W = 1) :
+    (E * M * E) * (Ei * W * Ei) = 1 := by
+  calc (E * M * E) * (Ei * W * Ei) = E * (M * ((E * Ei) * W)) * Ei := by simp only [Matrix.mul_assoc]
+    _ = 1 := by rw [h1, Matrix.one_mul, h3, Matrix.mul_one, h1]
+
+/-- **Non-constant diagonal: the closure is the exact inverse.**  Under the QR contract on the matrix the code hands to
+`torch.linalg.qr` (`Q R = cat(L / √d, I)`, `QᵀQ = I`) and `√dᵢ·√dᵢ = dᵢ ≠ 0`: `(L Lᵀ + D) · closure(X) = X`, with
+`closure(X) = X / d − q(qᵀX)`, `q = Q[:n] / √d` (`_q_cache`). -/
+theorem nonconst_inverse (P : Prim α) (L : Mat α n k) (d : Fin n → α) (Q : Mat α (n + k) k) (R : Mat α k k)
+    (x : Mat α n c) (hs : ∀ i, P.sqrt (d i) * P.sqrt (d i) = d i) (hs0 : ∀ i, d i ≠ 0)
+    (hqr : Mat.mul Q R = qrInputNonconst P L d)
+    (horth : Mat.mul (Mat.transpose Q) Q = fun i j => if i = j then 1 else 0) :
+    Mat.mul (precondLt L d) (closureNonconst (qCacheNonconst P Q d) d x) = x := by
+  have he0 : ∀ i, P.sqrt (d i) ≠ 0 := by
+    intro i h; have := hs i; rw [h, mul_zero] at this; exact hs0 i this.symm
+  set E : Matrix (Fin n) (Fin n) α := Matrix.diagonal fun i => P.sqrt (d i) with hE
+  set Ei : Matrix (Fin n) (Fin n) α := Matrix.diagonal fun i => (P.sqrt (d i))⁻¹ with hEi
+  have hEEi : E * Ei = 1 := by
+    rw [hE, hEi, Matrix.diagonal_mul_diagonal, ← Matrix.diagonal_one]
+    congr 1; funext i; exact mul_inv_cancel₀ (he0 i)
+  have hEiE : Ei * E = 1 := by
+    rw [hE, hEi, Matrix.diagonal_mul_diagonal, ← Matrix.diagonal_one]
+    congr 1; funext i; exact inv_mul_cancel₀ (he0 i)
+  have hEE : E * E = Matrix.diagonal d := by
+    rw [hE, Matrix.diagonal_mul_diagonal]; congr 1; funext i; exact hs i
+  have hEiEi : Ei * Ei = Matrix.diagonal fun i => 1 / d i := by
+    rw [hEi, Matrix.diagonal_mul_diagonal]; congr 1; funext i
+    calc (P.sqrt (d i))⁻¹ * (P.sqrt (d i))⁻¹ = (P.sqrt (d i) * P.sqrt (d i))⁻¹ := (mul_inv _ _).symm
+      _ = (d i)⁻¹ := by rw [hs i]
+      _ = 1 / d i := (one_div _).symm
+  have hEt : Eiᵀ = Ei := by rw [hEi, Matrix.diagonal_transpose]
+  -- blocks of the QR contract
+  have h1 := stack_top hqr
+  have h2 := stack_bot hqr
+  have h3 := orth_blocks horth
+  have hT : (Matrix.of (fun i j => L i j / P.sqrt (d i)) : Matrix (Fin n) (Fin k) α) = Ei * Matrix.of L := by
+    ext i j; simp only [hEi, Matrix.diagonal_mul, Matrix.of_apply, div_eq_inv_mul]
+  have hI : (Matrix.of (fun i j : Fin k => if i = j then (1 : α) else 0)) = (1 : α) • (1 : Matrix (Fin k) (Fin k) α) := by
+    ext i j; simp [Matrix.one_apply]
+  rw [hT] at h1
+  rw [hI] at h2
+  have hw := woodbury_qr (Ei * Matrix.of L) (Matrix.of (topRows Q)) (Matrix.of (botRows Q)) (Matrix.of R) 1 1
+    (by ring) one_ne_zero h1 h2 h3
+  simp only [one_smul] at hw
+  -- the cached q and the two sides as conjugations
+  have hq : (Matrix.of (qCacheNonconst P Q d) : Matrix (Fin n) (Fin k) α) = Ei * Matrix.of (topRows Q) := by
+    ext i j; simp only [hEi, qCacheNonconst, Matrix.diagonal_mul, Matrix.of_apply, div_eq_inv_mul]
+  have hP : (Matrix.of L * (Matrix.of L)ᵀ + Matrix.diagonal d : Matrix (Fin n) (Fin n) α) =
+      E * (Ei * Matrix.of L * (Ei * Matrix.of L)ᵀ + 1) * E := by
+    rw [Matrix.mul_add, Matrix.add_mul, Matrix.mul_one, hEE, Matrix.transpose_mul, hEt]
+    congr 1
+    simp only [Matrix.mul_assoc]
+    rw [hEiE, Matrix.mul_one, ← Matrix.mul_assoc E Ei, hEEi, Matrix.one_mul]
+  have hC : (Matrix.diagonal (fun i => 1 / d i) * Matrix.of x -
+      Matrix.of (qCacheNonconst P Q d) * ((Matrix.of (qCacheNonconst P Q d))ᵀ * Matrix.of x) : Matrix (Fin n) (Fin c) α) =
+      (Ei * (1 - Matrix.of (topRows Q) * (Matrix.of (topRows Q))ᵀ) * Ei) * Matrix.of x := by
+    rw [hq, ← hEiEi, Matrix.transpose_mul, hEt, Matrix.mul_sub, Matrix.sub_mul, Matrix.sub_mul, Matrix.mul_one]
+    simp only [Matrix.mul_assoc]
+  rw [Mat.mul_eq_matrix_mul, precondLt_eq, closureNonconst_eq]
+  change (Matrix.of L * (Matrix.of L)ᵀ + Matrix.diagonal d) * (Matrix.diagonal (fun i => 1 / d i) * Matrix.of x -
+      Matrix.of (qCacheNonconst P Q d) * ((Matrix.of (qCacheNonconst P Q d))ᵀ * Matrix.of x)) = Matrix.of x
+  rw [hP, hC, ← Matrix.mul_assoc, conj_inverse hEEi hw, Matrix.one_mul]
+
 end LinOp.C10
